@@ -164,7 +164,11 @@ def run(ctx):
             ctx.case((name,), nontrivial=len(pts) > 1, sample=dict(case=name, n_points=len(pts)))
             # ---- replay the recorded draws through the model
             if len(rec.log) <= 6000:
-                x0, its, mirror = iterations_from_log(rec.log, nx, ny)
+                try:
+                    x0, its, mirror = iterations_from_log(rec.log, nx, ny)
+                except Exception as ex:
+                    ctx.corr_break(f"{name}: the recorded draws cannot be grouped into iterations of the modelled loop ({type(ex).__name__})", dict(case=name))
+                    continue
                 allpts = [x0] + [c for it in its for c in it["cands"]]
                 S = core.dyadic_scale(np.array(allpts).flatten())
                 sc = lambda p: [core.to_scaled(p[0], S), core.to_scaled(p[1], S)]
